@@ -61,7 +61,9 @@ typedef struct SimImage {
     char *pristine;            /* snapshot taken before anything ran */
     size_t size;
     struct SimProc *owner;     /* whose statics are currently loaded */
+    bool race;                 /* the -fsanitize=thread build of the daemon (race.c); chosen instead of the plain one when sim_race_daemon is set */
 } SimImage;
+extern bool sim_race_daemon;
 SimImage *sim_image(const char *name);
 void sim_images_init(void);
 
